@@ -383,6 +383,7 @@ type FuncContract struct {
 	CountCall     map[string][]*Clause // per function-valued parameter: ghost counter (Label) += 1 at each call where the clause holds
 	InlineCallees map[string]bool
 	UseEnsures    map[string]map[string]bool // callee -> labels of the only postconditions assumed at its call sites
+	AtCall        map[string][]*Clause // static callee -> obligations at each call of it in this function (arg0.. = the call's arguments)
 	Instances     map[string]map[string][]Expr // callee -> label of a postcondition forall(k, "T", body) -> terms it is instantiated at
 	UseEnsuresAt  map[string]map[string]map[string]bool // own postcondition label -> callee -> labels (overrides UseEnsures for that obligation)
 	UseAll        []string // lemmas assumed in universally quantified form
@@ -405,7 +406,7 @@ var clauseKeywords = map[string]bool{
 	"property": true, "model": true, "requires": true, "ensures": true, "loop": true,
 	"inline": true, "trusted": true, "safety": true, "pure": true, "assigns": true,
 	"let": true, "note": true, "method": true, "body": true, "use": true, "opt": true,
-	"assert": true, "purearg": true, "olet": true, "assumecb": true, "countcall": true, "oncall": true, "inlinecall": true, "useall": true, "useensures": true, "instances": true,
+	"assert": true, "purearg": true, "olet": true, "assumecb": true, "countcall": true, "oncall": true, "inlinecall": true, "useall": true, "useensures": true, "instances": true, "atcall": true,
 }
 
 // ParseContractFile reads one verif_contracts.go file.
@@ -816,6 +817,22 @@ func (cs *ContractSet) addClause(c *FuncContract, kw, text, file string, line in
 		for _, l := range fs[1:] {
 			set[l] = true
 		}
+	case "atcall":
+		// atcall <callee> [label:] <expr>: obligation in the caller's state at every
+		// static call of <callee>; arg0, arg1, ... are the arguments of that call
+		fs := strings.Fields(text)
+		if len(fs) < 2 {
+			return fmt.Errorf("atcall <callee> <expr>")
+		}
+		cl, err := mk("atcall", strings.TrimSpace(strings.TrimPrefix(strings.TrimSpace(text), fs[0])))
+		if err != nil {
+			return err
+		}
+		if c.AtCall == nil {
+			c.AtCall = map[string][]*Clause{}
+		}
+		k := normalizeFuncName(fs[0])
+		c.AtCall[k] = append(c.AtCall[k], cl)
 	case "instances":
 		// instances <callee> <label> <expr> ; <expr> ...: the postcondition <label> of
 		// <callee> (a forall(k, "T", body)) is also assumed at these terms
